@@ -98,8 +98,15 @@ template <class P> typename gil::channel_type<P>::type to_channel(double v)
     if constexpr (is_float_px<P>()) return Ch(static_cast<float>(v));
     else return static_cast<Ch>(v);
 }
+template <class SP, class DP> static void thresh_mixed(Case const& c, const char* name);
 static void run_thresh(Case const& c)
 {
+    if ((c.get("seed") & 3) == 0) // a quarter of the gray8 / gray16 cases use a destination of the other channel width
+    {
+        int t = static_cast<int>(c.get("type")) % 6;
+        if (t == 0) { thresh_mixed<gil::gray8_pixel_t, gil::gray16_pixel_t>(c, "gray8->gray16"); return; }
+        if (t == 1) { thresh_mixed<gil::gray16_pixel_t, gil::gray8_pixel_t>(c, "gray16->gray8"); return; }
+    }
     // float32 channels are not a provided configuration of the threshold functions (their lambdas do not compile for scoped_channel_value)
     with_type(static_cast<int>(c.get("type")) % 6, [&](auto PT) {
         using P = decltype(PT);
@@ -150,6 +157,53 @@ static void run_thresh(Case const& c)
         }
         }
     });
+}
+
+// Source and destination views of DIFFERENT channel widths (the functions take the threshold in the destination's channel type and compare
+// the source channel with it): gray16 -> gray8 and gray8 -> gray16.  Only combinations whose documented outcome always fits the destination
+// channel are generated: threshold_binary (all), and for a wider source threshold_truncate {threshold mode, regular} and {zero mode, inverse}.
+template <class SP, class DP> static void thresh_mixed(Case const& c, const char* name)
+{
+    i64 w = c.get("w"), h = c.get("h");
+    std::uint64_t seed = static_cast<std::uint64_t>(c.get("seed"));
+    bool ge = c.get("guard") != 0;
+    Root<SP> src(w, h, ge);
+    Root<DP> dst(w, h, !ge, 0x3C);
+    fill_kind(src.v, static_cast<int>(c.get("kind")) % 6, seed);
+    verif::SplitMix r(seed ^ 0x99);
+    double dlo = lo_of<DP>(), dhi = hi_of<DP>(), shi = hi_of<SP>();
+    bool wider = shi > dhi;
+    if (wider) // every second source value is brought next to the destination's range so that both outcomes of the comparison occur
+        for (i64 y = 0; y < h; ++y)
+            for (i64 x = 0; x < w; ++x)
+                if (r.below(2)) set_ch(src.v(x, y), 0, std::fmod(get_ch(src.v(x, y), 0), 2 * (dhi + 1)));
+    auto sv = dump(src.v);
+    double T = dlo + static_cast<double>(r.below(static_cast<std::uint64_t>(std::min(dhi, shi) - dlo) + 1));
+    if (c.get("tsel") % 6 == 4 && !sv.empty()) { double cand = sv[r.below(sv.size())]; if (cand <= dhi) T = cand; }
+    double M = dlo + static_cast<double>(r.below(static_cast<std::uint64_t>(dhi - dlo) + 1));
+    auto Tc = to_channel<DP>(T);
+    auto Mc = to_channel<DP>(M);
+    int fn = static_cast<int>(c.get("fn")) % 3;
+    bool inverse = c.get("inverse") != 0, zero_mode = c.get("zero") != 0;
+    if (wider && fn == 2) inverse = zero_mode; // the two combinations whose outcome always fits the narrower destination
+    auto dir = inverse ? gil::threshold_direction::inverse : gil::threshold_direction::regular;
+    auto mode = zero_mode ? gil::threshold_truncate_mode::zero : gil::threshold_truncate_mode::threshold;
+    std::string what = std::string(name) + (fn == 0 ? " threshold_binary(T,max)" : fn == 1 ? " threshold_binary(T)" : " threshold_truncate") + (inverse ? " inverse" : " regular") +
+                       (fn == 2 ? (zero_mode ? " zero" : " threshold") : "") + " T=" + std::to_string(T);
+    if (fn == 0) gil::threshold_binary(src.v, dst.v, Tc, Mc, dir);
+    else if (fn == 1) { gil::threshold_binary(src.v, dst.v, Tc, dir); M = dhi; }
+    else gil::threshold_truncate(src.v, dst.v, Tc, mode, dir);
+    auto dv = dump(dst.v);
+    VCHECK(dump(src.v) == sv, what, ": source changed");
+    for (std::size_t i = 0; i < sv.size(); ++i)
+    {
+        double px = sv[i], want;
+        bool gt = px > T;
+        if (fn < 2) want = inverse ? (gt ? 0 : M) : (gt ? M : 0);
+        else if (!zero_mode) want = inverse ? (gt ? px : T) : (gt ? T : px);
+        else want = inverse ? (gt ? 0 : px) : (gt ? px : 0);
+        VCHECK(dv[i] == want, what, ": channel value ", px, " gave ", dv[i], ", the documented rule gives ", want, " (element ", i, ")");
+    }
 }
 
 static void run_otsu(Case const& c)
@@ -390,7 +444,7 @@ void verif_run(verif::Args const& a, verif::Evidence& ev)
 {
     bool th = a.thorough();
     ev.rule = "pixel types gray8, gray16, gray8s, gray16s, rgb8, rgb16s, gray32f; shapes 0..9 (0 weighted in, non-square), contents {random, constant, two-level, narrow range with ties, extremes only, gradient}. "
-              "thresh: threshold_binary (with and without max value) and threshold_truncate x both modes x both directions x defaulted arguments, T from {range ends, next to the ends, a value of the image, random} -> every channel "
+              "thresh: threshold_binary (with and without max value) and threshold_truncate x both modes x both directions x defaulted arguments (a quarter of the gray8/gray16 cases write to a destination of the other channel width, restricted to outcomes that fit it), T from {range ends, next to the ends, a value of the image, random} -> every channel "
               "equals the documented rule. otsu: threshold_optimal on the 8/16-bit types -> outputs in {0,max}, separable by one threshold per channel, no sanitizer report. morph: symmetric random structuring elements 1/3/5 "
               "(int and float kernels), iterations 0..3 -> dilate/erode/opening/closing equal iterated max/min over the in-image neighbourhood; lattice laws on the library's output. median: k in {1,3,5,7} -> middle element of the "
               "sorted edge-replicated window. non-trivial: non-empty image (morph/median: and kernel larger than 1); distinct = all keys but the content seed.";
